@@ -1,0 +1,6 @@
+//go:build !verif
+
+package tl
+
+// verifRandom is a hook of the external verification harness; without the verif build tag it never supplies bytes.
+func verifRandom(size int) []byte { return nil }
